@@ -94,6 +94,11 @@ func vAssert(c bool, msg string) {
 // path; natively an ordinary assertion on the concrete run.
 func vAssertPossible(c bool, msg string) { vAssert(c, msg) }
 
+// vStdin / vCatchExit exist for the CLI harness and only work under the
+// engine; natively that harness drives the compiled binary instead.
+func vStdin(s string) {}
+func vCatchExit(f func()) (int, bool) { f(); return 0, false }
+
 // vKeygenCount: number of key generations so far on this path (engine only;
 // natively always 0, so differences are vacuous there).
 func vKeygenCount() int { return 0 }
